@@ -252,6 +252,9 @@ def run_shard(shard, tier):
     flavors = ["momentum"] if op.momentum_only else ["generic", "momentum"]
     cases = S.operand_cases(op, dimA, dimB, tier, boundary=True)
     scal = S.scalar_sets(op, tier)
+    if op.name in ("is_timelike", "is_spacelike", "is_lightlike"):
+        # non-default tolerances between tau and tau^2 of the alphabet's slow (|tau| ~ 0.1-0.3) and ordinary (|tau| ~ 1.3-4) vectors
+        scal = scal + [t for t in ({"tolerance": 0.0625}, {"tolerance": 3.0}, {"tolerance": -3.0}) if t not in scal]
     nsamp = 0
     for flavor in flavors:
         for a, b in cases:
